@@ -207,7 +207,16 @@ def inline_lets(ts):
         prev = rest[j - 1][:2] if j > 0 else None
         nxt = rest[j + 1][:2] if j + 1 < len(rest) else None
         line = rest[j][2]
-        simple = not any(t[0] == "punct" and t[1] in ("+", "-", "*", "/", "%", "==", "<", ">", "<=", ">=", "!=") for t in expr)
+        # does the expression contain a binary operator outside turbofish brackets (::<...>)?
+        simple, q, dd = True, 0, 0
+        while q < len(expr):
+            t = expr[q]
+            if t[:2] == ("punct", "::") and q + 1 < len(expr) and expr[q + 1][:2] == ("punct", "<"):
+                q = _match(expr, q + 1, "<", ">") + 1
+                continue
+            if t[0] == "punct" and t[1] in ("+", "-", "*", "/", "%", "==", "<", ">", "<=", ">=", "!="):
+                simple = False
+            q += 1
         sub = list(expr) if simple else [("punct", "(", line)] + list(expr) + [("punct", ")", line)]
         if prev in (("punct", ","), ("punct", "{")) and nxt in (("punct", ","), ("punct", "}")):
             sub = [("id", name, line), ("punct", ":", line)] + list(expr)       # field shorthand
